@@ -1047,6 +1047,8 @@ class Interp:
                 return obj.size
             if name == "shape":
                 return obj.shape
+        if isinstance(obj, (int, z3.ArithRef, z3.BoolRef)) and name == "dtype":
+            return Opaque("dtype")
         raise Unsupported("attribute %s of %r" % (name, obj))
 
     def owner_of(self, cls, name):
